@@ -152,6 +152,9 @@ func (p ActionPop) applyAction(lexer *StatefulLexer, groups []string) error {
 	if groups[0] == "" {
 		return errors.New("did not consume any input")
 	}
+	if len(lexer.stack) <= 1 {
+		return errors.New("cannot pop the initial state")
+	}
 	lexer.stack = lexer.stack[:len(lexer.stack)-1]
 	return nil
 }
@@ -382,6 +385,9 @@ next:
 		for i, candidate := range rules {
 			// Special case "Return()".
 			if candidate.Rule == ReturnRule {
+				if len(l.stack) <= 1 {
+					return Token{}, errorf(l.pos, "lexer: cannot return from the initial state")
+				}
 				l.stack = l.stack[:len(l.stack)-1]
 				parent = l.stack[len(l.stack)-1]
 				rules = l.def.rules[parent.name]
